@@ -1314,6 +1314,8 @@ def eval_obs(value, zmodel):
         return [eval_obs(v, zmodel) for v in value]
     if isinstance(value, dict):
         return {str(k): eval_obs(v, zmodel) for k, v in value.items()}
+    if hasattr(value, "cells"):          # SStr: concretise the cells
+        return "".join(c if isinstance(c, str) else chr(_model_value(zmodel, c)) for c in value.cells)
     return _plain(value)
 
 
